@@ -125,17 +125,36 @@ def build_module(ad, ctx, rng, history=None, depth=0):
     return m
 
 
+def put_values(chunk, values, rng, history):
+    """Fill an array chunk the ways applications do: a new list, or the existing list edited in place (possibly after the
+    chunk's own reset())."""
+    how = rng.randrange(8)
+    if how == 0:
+        chunk.reset()
+        for i, v in enumerate(values):
+            chunk.values[i] = v
+        history.append(("array-reset-then-in-place",))
+    elif how == 1:
+        chunk.values[:] = values
+        history.append(("array-slice-assign",))
+    elif how == 2:
+        chunk.reset()
+        chunk.values = values
+    else:
+        chunk.values = values
+
+
 def apply_payload(m, mtype, pl, rng, history, depth):
     if mtype == "MultiSynth":
-        m.nv_curve.values = list(pl["nv_curve"])
-        m.vv_curve.values = list(pl["vv_curve"])
-        m.np_curve.values = list(pl["np_curve"])
+        put_values(m.nv_curve, list(pl["nv_curve"]), rng, history)
+        put_values(m.vv_curve, list(pl["vv_curve"]), rng, history)
+        put_values(m.np_curve, list(pl["np_curve"]), rng, history)
     elif mtype == "MultiCtl":
-        m.curve.values = list(pl["curve"])
+        put_values(m.curve, list(pl["curve"]), rng, history)
         for i, mp in enumerate(pl["mappings"]):
             m.mappings.values[i] = m.Mapping(tuple(mp))
     elif mtype == "WaveShaper":
-        m.curve.values = list(pl["curve"])
+        put_values(m.curve, list(pl["curve"]), rng, history)
     elif mtype == "SpectraVoice":
         H = m.HarmonicType
         if rng.random() < 0.5:
@@ -147,10 +166,10 @@ def apply_payload(m, mtype, pl, rng, history, depth):
                 h.type = H(pl["harmonic_types"][i])
             history.append(("harmonics-via-proxies",))
         else:
-            m.harmonic_freqs.values = list(pl["harmonic_freqs"])
-            m.harmonic_volumes.values = list(pl["harmonic_volumes"])
-            m.harmonic_widths.values = list(pl["harmonic_widths"])
-            m.harmonic_types.values = [H(v) for v in pl["harmonic_types"]]
+            put_values(m.harmonic_freqs, list(pl["harmonic_freqs"]), rng, history)
+            put_values(m.harmonic_volumes, list(pl["harmonic_volumes"]), rng, history)
+            put_values(m.harmonic_widths, list(pl["harmonic_widths"]), rng, history)
+            put_values(m.harmonic_types, [H(v) for v in pl["harmonic_types"]], rng, history)
             if rng.random() < 0.5:
                 # ... and afterwards one harmonic is set through its proxy object again
                 i = rng.randrange(16)
@@ -163,7 +182,7 @@ def apply_payload(m, mtype, pl, rng, history, depth):
     elif mtype in ("Analog generator", "Generator"):
         m.drawn_waveform.samples = list(pl["drawn_waveform"])
     elif mtype == "FMX":
-        m.custom_waveform.values = list(pl["custom_waveform"])
+        put_values(m.custom_waveform, list(pl["custom_waveform"]), rng, history)
     elif mtype == "Vorbis player":
         m.data = pl["data"] if pl["data"] or rng.random() < 0.5 else None
     elif mtype == "MetaModule":
